@@ -90,6 +90,14 @@ def run(ctx):
         m = importlib.util.module_from_spec(sp)
         sp.loader.exec_module(m)
         m.run_ext(ctx)
+    # extension: recovery messages as payloads of their own, several heights, future-height cache (spec/dbftrec)
+    rp = os.path.join(os.path.dirname(os.path.abspath(__file__)), "c19_recovery.py")
+    if os.path.exists(rp):
+        import importlib.util
+        sp = importlib.util.spec_from_file_location("check_c19_recovery", rp)
+        m = importlib.util.module_from_spec(sp)
+        sp.loader.exec_module(m)
+        m.run_ext(ctx)
     ctx.assumptions.append("silent = late: a silent validator neither receives payloads nor has its timer fired while silent; payloads it sent earlier stay deliverable")
     ctx.assumptions.append("synchrony = every sent payload is delivered to everybody, lagging nodes get peers' blocks through their block queue, and the armed timer with the earliest virtual deadline fires when nothing else can happen; Progress bound = 6*N such rounds per block")
     ctx.assumptions.append("Progress after an asynchronous period: a left-over height is exempt only while it is in dBFT 2.0's dead end (a validator locked by a Commit of view v and another validator already past v), established by TLC from the recorded sends; every other stall is a violation")
